@@ -5,7 +5,7 @@ from treegen import coq_term as _ct
 
 PID = "C06"
 TARGETS = ["Run.vo", "Tree_proofs.vo"]
-IMPORTS = "From VF Require Import Base Show Gen_Errors Lexer Response Tree Scripted Run."
+IMPORTS = "From VF Require Import Base Show Gen_Errors Lexer Response Conv Tree Scripted Run."
 ALLOWED_AXIOMS = []
 PROFILES = ["debug"]
 RULE = ("random command trees (depth <= 3, default leaves/branches, suffixed siblings) with scripted handlers pulling 0..4 "
@@ -18,10 +18,13 @@ ASSUMPTIONS = ["the scripted handler (harness/src/k_tree.rs) and its Coq embeddi
 def corpus():
     L = treegen.case_line
     sub = [("L", b"ZERO", False, 1), ("L", b"ONE", False, 2), ("L", b"OPT", False, 3), ("B", b"CONFigure", False, [("L", b"VOLTage", True, 4)])]
-    sc = {1: ([], ["di0"]), 2: (["r"], ["r", "di1"]), 3: (["r", "o", "o"], ["o", "di2"]), 4: (["r", "r"], ["r", "di4"])}
+    sc = {1: ([], ["di0"]), 2: (["r"], ["r", "di1"]), 3: (["r", "o", "o"], ["o", "di2"]), 4: (["r", "r"], ["r", "di4"]),
+          5: (["r:u8", "o:chr"], ["o:i16", "di5"])}
+    sub.append(("L", b"RO", False, 5))
     msgs = [b"ZERO", b"ZERO 1", b"ZERO (@1,2)", b"ZERO;ONE 1;OPT 1,2,3", b"ONE", b"ONE;ZERO", b"ONE 1,2;ZERO", b"OPT 1;ZERO;OPT 1,'x';ZERO",
             b"OPT;ZERO", b"CONF 5,(@6)", b"CONF? 5", b"CONF:VOLT 5,6", b"CONF 1;ZERO", b"ONE #H1F;ONE 'a;b';ONE #13a;b;ZERO", b"ONE 1,", b"OPT 1,;ZERO",
-            b"ONE? 1;ZERO?\n", b"ONE 1 ;ZERO", b"ONE 1 V;ZERO", b"OPT 1,2,3,4", b"ZERO ;ONE 2"]
+            b"ONE? 1;ZERO?\n", b"ONE 1 ;ZERO", b"ONE 1 V;ZERO", b"OPT 1,2,3,4", b"ZERO ;ONE 2",
+            b"RO 7,ABC;ZERO 9", b"RO 7,1;ZERO", b"RO 300;ZERO", b"RO? ABC;ZERO", b"RO? 1 V;ZERO", b"RO 7;ZERO", b"RO 7,'x';ZERO"]
     return [L("v", sub, sc, [m]) for m in msgs]
 
 
@@ -29,7 +32,7 @@ def generate(rng, tier):
     n = 500 if tier == "quick" else 8000
     out = []
     for _ in range(n):
-        tg = treegen.TreeGen(rng, illformed=0.05, emit=(rng.random() < 0.4), fail=0.05)
+        tg = treegen.TreeGen(rng, illformed=0.05, emit=(rng.random() < 0.4), fail=0.05, typed=rng.choice([0, 0, 0.5]))
         sub = tg.tree(rng.choice([1, 2, 3]))
         msgs = [treegen.gen_message(rng, sub, bad=0.05) for _ in range(rng.choice([1, 1, 2]))]
         out.append(treegen.case_line("v", sub, tg.scripts, msgs))
